@@ -62,7 +62,7 @@ struct XParse : Engine {
         for (long m = 1; m <= mt; m++) st.push_back("tokens" + std::to_string(m));
         for (long p = 0; p <= pc; p++) st.push_back("pieces" + std::to_string(p));
         st.push_back("nest");
-        if (mode == M_DECODE || mode == M_SAFETY) { st.push_back("u16"); st.push_back("surrogates"); st.push_back("numbers"); st.push_back("trees"); }
+        if (mode == M_DECODE || mode == M_SAFETY) { st.push_back("u16"); st.push_back("surrogates"); st.push_back("numbers"); st.push_back("digits"); st.push_back("trees"); }
         if (mode != M_DECODE) { st.push_back("nearmiss"); st.push_back("edits"); }
         return st;
     }
@@ -160,6 +160,15 @@ struct XParse : Engine {
                 std::string lit = std::string(neg ? "-" : "") + ip + fp + ep;
                 emit_now(ctx == 0 ? lit : ctx == 1 ? "[" + lit + "]" : "{\"n\":" + lit + "}");
             }
+        } else if (stage == "digits") {
+            // every 4-digit mantissa x a range of exponents, and a ladder of 15..19-digit integers (no "round" values)
+            static const int exps[] = { -30, -5, -4, -3, -2, -1, 0, 1, 2, 3, 4, 5, 12, 13, 14, 15, 16, 17, 18, 22, 23, 290 };
+            for (int m = 0; m < 10000; m++) for (int e : exps) { if (!pool_take()) continue; char b[48]; snprintf(b, sizeof b, "%d.%03de%d", m / 1000, m % 1000, e); emit_now(b); }
+            for (int digits = 15; digits <= 19; digits++) for (unsigned long long k = 1; k <= 2000; k++) {
+                if (!pool_take()) continue;
+                unsigned long long lo = 1; for (int i = 1; i < digits; i++) lo *= 10; unsigned long long v = lo + (lo / 2003) * k + k * k; char b[48]; snprintf(b, sizeof b, "%llu", v); emit_now(k % 3 == 0 ? std::string("-") + b : k % 3 == 1 ? std::string("[") + b + "]" : std::string(b));
+            }
+            for (unsigned long long k = 0; k < 4096; k++) { if (!pool_take()) continue; char b[48]; snprintf(b, sizeof b, "%llu", (1ull << 53) - 2048 + k); emit_now(b); snprintf(b, sizeof b, "%llu", (1ull << 54) - 2048 + k * 2 + 1); emit_now(b); snprintf(b, sizeof b, "%llu", (1ull << 63) - 4096 + k * 2 + 1); emit_now(b); }
         } else if (stage == "trees") {
             TreeAlphabet al; al.leaves = { RV::mk(RV::Null), RV::mk(RV::True), RV::mk(RV::False), RV::number(1), RV::string("s") }; al.keys = { "a", "b" }; al.max_arity = 3; al.max_depth = 4; al.dup_keys = true;
             int n = (int)cfg.optl("tree_nodes", cfg.thorough() ? 5 : 4);
